@@ -86,6 +86,8 @@ struct Direct {
     // reference model
     map: BTreeMap<PeerId, usize>,
     closed: BTreeSet<usize>,
+    /// connections that the remote side ended before they were handed to `add`
+    pre_closed: BTreeSet<usize>,
     added: BTreeSet<usize>,
     registered: BTreeSet<usize>,
     model_events: Vec<PeerEvent>,
@@ -119,6 +121,11 @@ fn exec(st: &Shared, w: &World, op: Op, nested: bool) {
                     s.map.insert(p, k);
                     s.model_events.push(PeerEvent::NewPeer(p));
                     true
+                }
+                // a connection that has already ended never displaces a live one (finding F-I)
+                Some(e) if s.pre_closed.contains(&k) && !s.pre_closed.contains(&e) => {
+                    s.interesting = true;
+                    false
                 }
                 Some(e) => {
                     s.interesting = true;
@@ -218,7 +225,7 @@ fn compare(st: &Shared, w: &World) {
     }
     for (k, c) in s.conns.iter().enumerate() {
         let is_closed = c.close_reason().is_some();
-        if is_closed != s.closed.contains(&k) {
+        if is_closed != (s.closed.contains(&k) || s.pre_closed.contains(&k)) {
             w.violate(if is_closed { "live-connection-closed" } else { "unregistered-connection-left-open" }, "connections", format!("after {ops:?}: c{k} closed = {is_closed}, model closed = {}", s.closed.contains(&k)));
         }
     }
@@ -268,7 +275,7 @@ fn run_c04(input: RunInput) -> ScenFuture {
         let preempt = w.flag("preemption", 0.5);
         let mut r = w.rng("wl:direct");
         let mut conns: Vec<DirectConnection> = Vec::new();
-        let mut remote_handles: Vec<DirectConnection> = Vec::new();
+        let mut remote_handles: Vec<Option<DirectConnection>> = Vec::new();
         for _ in 0..n_conns {
             let rm = &remotes[r.gen_range(0..n_peers)];
             // (the remote-side handle must stay alive: dropping the last handle closes a connection)
@@ -276,7 +283,7 @@ fn run_c04(input: RunInput) -> ScenFuture {
             match c {
                 Ok((c, other)) => {
                     conns.push(c);
-                    remote_handles.push(other);
+                    remote_handles.push(Some(other));
                 }
                 Err(e) => {
                     w.harness_error(format!("direct connection failed: {e}"));
@@ -290,6 +297,7 @@ fn run_c04(input: RunInput) -> ScenFuture {
             conns,
             map: BTreeMap::new(),
             closed: BTreeSet::new(),
+            pre_closed: BTreeSet::new(),
             added: BTreeSet::new(),
             registered: BTreeSet::new(),
             model_events: Vec::new(),
@@ -369,6 +377,20 @@ fn run_c04(input: RunInput) -> ScenFuture {
                     Op::HandlerExit(k, _) => st.borrow().registered.contains(k),
                     _ => true,
                 };
+                // the remote may have hung up before the connection is handed to `add` (its close
+                // has arrived: the connection is known to be closed when it is registered)
+                if let Op::Add(k) = &op {
+                    if r.gen_bool(0.25) {
+                        if let Some(h) = remote_handles[*k].take() {
+                            drop(h);
+                            crate::scen::common::sleep_ms(20).await;
+                            if st.borrow().conns[*k].close_reason().is_some() {
+                                st.borrow_mut().pre_closed.insert(*k);
+                                w.probe("connection-ended-before-it-was-registered");
+                            }
+                        }
+                    }
+                }
                 if ok {
                     exec(&st, &w, op, false);
                 }
@@ -472,6 +494,7 @@ fn run_c04_exhaustive(input: RunInput) -> ScenFuture {
             conns,
             map: BTreeMap::new(),
             closed: BTreeSet::new(),
+            pre_closed: BTreeSet::new(),
             added: BTreeSet::new(),
             registered: BTreeSet::new(),
             model_events: Vec::new(),
